@@ -77,13 +77,20 @@ def pairing(ctx, rule):
         for (ebi, et, rk, m) in U.receiver_events(ctx, cb):
             if m == "insert" and et.get("cn", "").startswith("std::collections::HashMap::") and len(et["args"]) > 2:
                 v = S.strip_refs(csy.operand(et["args"][2]))
-                fresh = v[0] == "call" and v[1].endswith(("Vec::with_capacity", "Vec::new", "Store::new", "Default::default"))
+                vb = cb
+                if v[0] == "call" and v[1].endswith(("FnOnce::call_once", "FnMut::call_mut", "Fn::call")) and v[2] and \
+                        U.closure_body(ctx, S.strip_refs(v[2][0])) is not None:
+                    # the value is made by a closure literal: judge what the closure returns
+                    vb = U.closure_body(ctx, S.strip_refs(v[2][0]))
+                    v = S.strip_refs(ctx.sym(vb).local(0)) if hasattr(ctx.sym(vb), "local") else v
+                fresh = (v[0] == "call" and v[1].endswith(("Vec::with_capacity", "Vec::new", "Store::new", "Default::default", "from_elem"))) \
+                    or (v[0] == "agg" and v[1] in ("adt", "array", "tuple"))
                 if v[0] in ("local", "phi"):
                     # a local built here: all its definitions must be constructor calls
                     l = v[1]
-                    ds = cb.defs().get(l, [])
-                    fresh = bool(ds) and all(kind == "call" and (node.get("cn") or "").endswith(("Vec::with_capacity", "Vec::new", "Store::new"))
-                                             for kind, _, _, node in ds)
+                    ds = vb.defs().get(l, [])
+                    fresh = bool(ds) and all((kind == "call" and (node.get("cn") or "").endswith(("Vec::with_capacity", "Vec::new", "Store::new", "Default::default")))
+                                             or (kind == "assign" and node["rv"]["k"] == "agg") for kind, _, _, node in ds)
                 k2 = "fresh-value:%s:%s" % (root, key_.rsplit("::", 1)[-1])
                 if fresh:
                     ctx.ok(rule, k2, where(cb, ebi, et), "%s inserts a freshly constructed value into %s" % (root, key_.rsplit("::", 1)[-1]), kind="S")
@@ -196,6 +203,23 @@ def buffer_rules(ctx, rule_c, rule_d, rule_f):
         sy = ctx.sym(b)
         clears = [bi for bi, t, m in evs if m == "clear"]
         pushes = [(bi, t) for bi, t, m in evs if m in ("push", "extend", "append", "extend_from_slice", "insert")]
+        # `iter.for_each(|item| buffer.push(item))` stores every item of `iter`, like `buffer.extend(iter)`
+        for fbi, ft in b.calls():
+            if not U.callee_is(ft, "Iterator::for_each") or len(ft["args"]) < 2:
+                continue
+            fcb = U.closure_body(ctx, sy.operand(ft["args"][1]))
+            if fcb is None:
+                continue
+            fsy = ctx.sym(fcb)
+            for (ebi, et, rk, m) in U.receiver_events(ctx, fcb):
+                if m != "push" or not (isinstance(rk, tuple) and rk and rk[0] == "upvar") or len(et["args"]) < 2:
+                    continue
+                pb_, pe_ = ctx.model.upvar_expr(fcb, rk[1])
+                if pb_ is not None and pb_.id == b.id and S.strip_refs(pe_) == ("arg", 2) and \
+                        S.strip_refs(fsy.operand(et["args"][1])) == ("arg", 2) and ctx.cfg(fcb).every_path_passes(0, [ebi]):
+                    fake = dict(ft)
+                    fake["args"] = [ft["args"][1], ft["args"][0]]
+                    pushes.append((fbi, fake))
         key = "clear-before-refill:%s" % root
         # the clear is on every path of the runner (and of the closures around it), not only before the pushes
         always = bool(clears) and cfg.every_path_passes(0, clears)
